@@ -1,4 +1,5 @@
 import MoSql.Lemmas.FormatCompat
+import MoSql.Lemmas.FormatCompat2
 import MoSql.Lemmas.ExprSem
 import MoSql.Lemmas.LevelsOK
 import MoSql.Gen.FmtTable
@@ -34,5 +35,42 @@ theorem parse_of_format (t : T) (p : Int)
     (h : admissible Gen.knownFmtTriples Gen.fmtOps t = true) :
     E.evalE Gen.ctx (fmtE Gen.fmtOps t p) = E.sem Gen.ctx (fmtE Gen.fmtOps t p) :=
   E.evalE_eq_sem Gen.ctx levels_ok _ (fmt_output_compatible t p h)
+
+/-! ### the whole expression vocabulary: `Operator(...)` renderers and the hand-written ones -/
+
+/-- Table obligation over EVERY expression renderer (21 `Operator(...)` ones and `_not`, `_binary_not`,
+`_missing`, `_exists`, `_in`, `_nin`, `_regexp`, `_not_regexp`, `_between`, `_not_between`), whose use of
+precedence is MEASURED on the real `Formatter` on every run: for every ordered pair of renderers and every
+operand slot, whenever the outer one leaves the inner one without parentheses, the parser's level table
+keeps it as that operand.  No exception list. -/
+theorem all_renderers_sound : Fmt2.soundTable [] Gen.allOps = true := by decide
+
+/-- every renderer writes an operator of the kind (prefix / binary / ternary) the parser's table has at that level -/
+theorem all_renderers_wf : Fmt2.wfTable Gen.levels Gen.allOps = true := by decide
+
+/-- **C04, whole expression vocabulary, every depth**: for every tree built from these 31 operators (any nesting
+of NOT, ~, IS [NOT] NULL, [NOT] IN, [NOT] BETWEEN, [NOT] REGEXP, the LIKE family, comparisons, arithmetic, bit
+operators, AND, OR) and every outer precedence, the text `format` emits is precedence-compatible at every
+parenthesis level under the parser's current table … -/
+theorem fmt_all_compatible (t : T2) (p : Int) (h : Fmt2.admissible [] Gen.allOps t = true) :
+    E.okTop Gen.ctx (Fmt2.fmt Gen.allOps t p) = true :=
+  Fmt2.okTop_fmt Gen.ctx [] Gen.allOps all_renderers_sound all_renderers_wf t p h
+
+/-- … hence the parser applies every operator to exactly the operands the formatter wrote for it, and drops nothing -/
+theorem parse_of_format_all (t : T2) (p : Int) (h : Fmt2.admissible [] Gen.allOps t = true) :
+    E.evalE Gen.ctx (Fmt2.fmt Gen.allOps t p) = E.sem Gen.ctx (Fmt2.fmt Gen.allOps t p)
+      ∧ E.dropsTop Gen.ctx (Fmt2.fmt Gen.allOps t p) = false :=
+  ⟨E.evalE_eq_sem Gen.ctx levels_ok _ (fmt_all_compatible t p h),
+   E.dropsTop_of_okTop Gen.ctx levels_ok _ (fmt_all_compatible t p h)⟩
+
+/-- the hypothesis is met by a tree mixing hand-written and `Operator` renderers four levels deep:
+`NOT ((a IS NULL) BETWEEN b AND (c + d)) AND e` -/
+example :
+    let i := fun (n : String) => (Gen.allOps.findIdx? (·.name == n)).getD 0
+    Fmt2.admissible [] Gen.allOps
+      (.bin (i "and")
+        (.un (i "not") (.tern (i "between") (.un (i "missing") (.leaf "a" (.str "a"))) (.leaf "b" (.str "b"))
+          (.bin (i "add") (.leaf "c" (.str "c")) (.leaf "d" (.str "d")))))
+        (.leaf "e" (.str "e"))) = true := by decide
 
 end MoSql.Props.C04
